@@ -14,6 +14,7 @@ mod sockio;
 mod sockopt;
 mod time;
 mod timed;
+mod uring;
 
 pub fn lookup(name: &str) -> Option<AreaFn> {
     match name {
@@ -28,6 +29,7 @@ pub fn lookup(name: &str) -> Option<AreaFn> {
         "sockio" => Some(sockio::run),
         "sockopt" => Some(sockopt::run),
         "timed" => Some(timed::run),
+        "uring" => Some(uring::run),
         _ => None,
     }
 }
